@@ -52,7 +52,7 @@ def plan(tier: str, seed: int) -> list[dict]:
     # (kind, shards, cases per shard)
     table = [("bare", 3, 9000 if q else 120000), ("limit", 1, 1500 if q else 12000), ("sig", 5, 1100 if q else 12000),
              ("wrapped", 2, 5000 if q else 60000), ("tap-key", 1, 1000 if q else 10000), ("tap-script", 3, 1400 if q else 15000),
-             ("stack", 1, 10000 if q else 150000)]
+             ("stack", 1, 40000 if q else 600000)]
     for kind, n, cases in table:
         for i in range(n):
             specs.append({"name": f"{kind}-{i}", "fn": "shard_diff", "kind": kind, "cases": cases,
@@ -350,17 +350,21 @@ def _stack_case(ctx: Ctx, lib: Lib, g, cm) -> None:
     flags = g.flags()
     case = g._case("stack:final-stack-compared", script, b"", [], flags)
     ck = cm.Checker(case.tx, case.n_in, case.spent[case.n_in].value, case.spent)
-    mstack: list = []
+    # the same program as a legacy script and as a witness v0 script (MINIMALIF and the initial stack are what differ)
+    v0 = r.random() < 0.35
+    init = [bytes(x) for x in g.items(r.randrange(0, 4))] if v0 or r.random() < 0.3 else []
+    mstack: list = list(init)
     try:
-        cm.eval_script(mstack, script, flags, ck, cm.BASE)
+        cm.eval_script(mstack, script, flags, ck, cm.WITNESS_V0 if v0 else cm.BASE)
         mres = "OK"
     except cm.ScriptErr as e:
         mres = e.code
     prev, tx = lib.build(case)
-    lstack: list = []
-    lo = outcome(lib.verify_script, script, lstack, prev[case.n_in].value, tx, case.n_in, lib.flags(flags), False, False)
+    lstack: list = list(init)
+    lo = outcome(lib.verify_script, script, lstack, prev[case.n_in].value, tx, case.n_in, lib.flags(flags), v0, False)
+    ctx.stat("stack:witness-v0" if v0 else "stack:legacy")
     d = {"script": script.hex(), "flags": case.describe()["flags"], "model": mres, "model_stack": [x.hex() for x in mstack[:20]],
-         "tx": case.tx.ser(True).hex()}
+         "tx": case.tx.ser(True).hex(), "sigversion": "witness_v0" if v0 else "base", "initial_stack": [x.hex() for x in init]}
     if lo[0] == "raise" and not is_lib_exc(lo[1]):
         ctx.violation(f"foreign-exception:{type(lo[1]).__name__}@{tb_origin(lo[1])}", f"verify_script raised {lo[1]!r}", d)
     elif (lo[0] == "ok") != (mres == "OK"):
